@@ -22,6 +22,8 @@ MSA = 'merge_ska_array::MergeSkaArray'
 
 
 def run(facts, chk, tier, only=None):
+    from . import cli_parsers
+    cli_parsers.check_frequency_options(facts, chk, 'C13.opt')
     from . import cli_e2e
     # the subcommand through ska::main() itself (argument parser replaced by a constructed Args value): hand-over of CLI values, width dispatch
     chk.guard('C13.cli', 'C13.cli:run0', lambda: cli_e2e.check_weed(facts, chk, 'C13.cli', tier))
